@@ -3128,6 +3128,8 @@ where
                 let packet_id = packet.packet_id();
                 if self.pid_pubrec.remove(&packet_id) {
                     self.store.erase(ResponsePacket::V3_1_1Pubrec, packet_id);
+                    // From now on the exchange waits for PUBCOMP (its PUBREL may be sent later).
+                    self.pid_pubcomp.insert(packet_id);
                     if self.auto_pub_response && self.status == ConnectionStatus::Connected {
                         let pubrel = v3_1_1::GenericPubrel::<PacketIdType>::builder()
                             .packet_id(packet_id)
@@ -3162,6 +3164,8 @@ where
                     self.store.erase(ResponsePacket::V5_0Pubrec, packet_id);
                     let reason_code = packet.reason_code();
                     if reason_code.is_none() || reason_code.unwrap() == PubrecReasonCode::Success {
+                        // From now on the exchange waits for PUBCOMP (its PUBREL may be sent later).
+                        self.pid_pubcomp.insert(packet_id);
                         if self.auto_pub_response && self.status == ConnectionStatus::Connected {
                             let pubrel = v5_0::GenericPubrel::<PacketIdType>::builder()
                                 .packet_id(packet_id)
